@@ -7,7 +7,7 @@
 (*   union  (dst = l + r, any choice of dst, l, r among the variables, l = r included)    *)
 (*          allocates a FRESH object and rebinds dst to it;                                *)
 (*   any    rebinds the variable to a fresh AnyValue wildcard;                             *)
-(*   new    rebinds the variable to a fresh ValueSet(*items) (items from CtorItems).       *)
+(*   new    rebinds the variable to a fresh ValueSet of an argument list from CtorItems.     *)
 (* Each set is modelled twice.  heap[o].rep follows the code's representation and merge  *)
 (* algorithm (ValueSetsOps Rep.. operators) and has reference semantics (an object is      *)
 (* changed through whatever names it).  den[x] is the plain set the property speaks of --  *)
